@@ -18,11 +18,14 @@ from vf import slicer
 
 _ct = slicer.parse(core.__file__)
 _for2 = slicer.find(_ct, ast.For, lambda n: ast.unparse(n.iter).replace(" ", "").startswith("map(str,args[1:])"))
-V2, SRC_V2 = slicer.make_function("v2", "self, args, parent, expand_recurse", "ht = {}\nnum = 1", _for2, "return ht", {**vars(core), "re": re, "Union": Union}, f"core.py:{_for2.lineno}")
+# the accumulators are initialised by the statements the source itself has before the loop (names may be refactored)
+_n2, _acc2 = slicer.loop_with_init(_ct, _for2)
+V2, SRC_V2 = slicer.make_function("v2", "self, args, parent, expand_recurse", "", _n2, f"return {_acc2}", {**vars(core), "re": re, "Union": Union}, f"core.py:{_for2.lineno}")
 
 _lt = slicer.parse(lx.__file__)
-_for3 = slicer.find(_lt, ast.For, lambda n: ast.unparse(n.iter) == "args" and "frame_args[k]" in ast.unparse(n) and "re.match" in ast.unparse(n))
-V3, SRC_V3 = slicer.make_function("v3", "ctx, args", "frame_args = {}\nnum = 1", _for3, "return frame_args", {**vars(lx), "re": re}, f"luaexec.py:{_for3.lineno}")
+_for3 = slicer.find(_lt, ast.For, lambda n: ast.unparse(n.iter) == "args" and ".match(" in ast.unparse(n) and any(isinstance(s, ast.Assign) and isinstance(s.targets[0], ast.Subscript) for s in ast.walk(n)))
+_n3, _acc3 = slicer.loop_with_init(_lt, _for3)
+V3, SRC_V3 = slicer.make_function("v3", "ctx, args", "", _n3, f"return {_acc3}", {**vars(lx), "re": re}, f"luaexec.py:{_for3.lineno}")
 
 _lua = open(os.path.join(os.path.dirname(lx.__file__), "lua", "_sandbox_phase2.lua")).read()
 _m = re.search(r'if is_named then\s*v = v:match\s*"([^"]*)"', _lua)
